@@ -19,7 +19,7 @@ T = {
          "Trusts the raw harness server and the independent parser; messages <= 2 KiB (the adapter writes through blocking net.Conn.Write); one read and up to three application writes outstanding; completion callbacks start further operations.",
          "stateful property-based testing over real sockets with harness-chosen poll cycles (rapid)", "DESIGN.md §4 C17"),
  "C18": ("exploration",
-         "Metamorphic property testing (rapid) of the opening handshake against a raw TCP server in the harness: response status, header set/order/case/whitespace, accept key, piggy-backed frames, segmentation and early close are generated; acceptance must equal the RFC predicate for every variant, the bytes after the response must all arrive as frames, and a re-handshaken stream must behave like a fresh one. Bounded search.",
+         "Metamorphic property testing (rapid) of the opening handshake against a raw TCP server in the harness: response status, header set/order/case/whitespace, accept key, piggy-backed frames, segmentation and early close are generated; acceptance must equal the RFC predicate for every variant, the bytes after the response (up to ~12 KiB of them, behind heads of up to ~9 KiB) must all arrive as frames, and a re-handshaken stream must behave like a fresh one. Bounded search.",
          "Trusts the harness server and independent accept-key computation; segments are separated by 3 ms pauses (a pause that fails to separate them only weakens the case).",
          "metamorphic property-based testing against a scripted server (rapid)", "DESIGN.md §4 C18"),
  "C05": ("exploration",
@@ -39,7 +39,7 @@ T = {
          "Trusts the shadow ledger (ops whose callback has not run, armed timers, posted handlers) and the 10 s watchdog (normal case < 50 ms); Post from inside posted handlers is left to C05.",
          "stateful property-based testing against a shadow ledger + signal injection (rapid)", "DESIGN.md §4 C03"),
  "C04": ("exploration",
-         "Model-based property testing (rapid) with real timerfds: generated schedules/cancels/closes from top level and from handlers of other timers and of a socket in the same poll batch; per-schedule ids decide which callbacks may run; one-sided timing oracle (elapsed >= delay - 50us, monotonic clock) and count-bounded liveness after sleeping past the deadlines; a second test blocks the loop in the poller across deadlines of 100..6000 us (fractional milliseconds) so that 'never early' is observed at the moment of expiry. Bounded search in real time (1..15 ms delays).",
+         "Model-based property testing (rapid) with real timerfds: generated schedules/cancels/closes from top level and from handlers of other timers and of a socket in the same poll batch; per-schedule ids decide which callbacks may run; one-sided timing oracle (elapsed >= delay - 50us, monotonic clock) and count-bounded liveness after sleeping past the deadlines; a second test blocks the loop in the poller across deadlines of 100..6000 us (fractional milliseconds) so that 'never early' is observed at the moment of expiry; a third runs 2..4 independent loops on their own threads at full speed (callbacks on the right thread, far-away schedules untouched). Bounded search in real time (1..15 ms delays).",
          "Real time cannot be virtualised without rewriting the code under test: tolerance 50 us, liveness margin 5 ms; load only lengthens sleeps (safe direction).",
          "stateful property-based testing with a per-schedule reference model (rapid)", "DESIGN.md §4 C04"),
  "C14": ("exploration",
@@ -51,11 +51,11 @@ T = {
          "Trusts the independent RFC 6455 encoder in harness/internal/rfc6455, the scripted transport harness/internal/memstream and the verif-tagged VerifAttach hook (state=Active + init, what in-package tests do).",
          "differential property-based testing against an independent encoder (rapid)", "DESIGN.md §4 C06"),
  "C07": ("exploration",
-         "Property testing (rapid) plus coverage-guided native fuzzing (thorough tier) of FrameCodec.Decode against an independent RFC 6455 parser: frame bytes, ErrNeedMore iff incomplete, error iff declared>max (incl. top-bit lengths), exact consumption, bounded capacity, split-independence, Encode->Decode round trips. Bounded search.",
+         "Property testing (rapid) plus coverage-guided native fuzzing (thorough tier) of FrameCodec.Decode against an independent RFC 6455 parser: frame bytes, ErrNeedMore iff incomplete, error iff declared>max (incl. top-bit lengths), exact consumption, bounded capacity, split-independence, independence of how the buffer is filled (growing Write, capacity-limited ReadFrom, buffers reused after Reset), Encode->Decode round trips. Bounded search.",
          "Trusts harness/internal/rfc6455 as the reference parser; capacity bound allows Go's append growth (2x).",
          "property-based testing + coverage-guided fuzzing with a differential oracle", "DESIGN.md §4 C07"),
  "C08": ("exploration",
-         "Model-based property testing (rapid state machine): generated histories of peer events and local calls on a scripted transport are compared step by step with a reference RFC 6455 endpoint model (read results, refused writes, allowed State() set) and the outbound bytes, parsed independently, with the model's frame list. Bounded search (<=25 steps per history).",
+         "Model-based property testing (rapid state machine): generated histories of peer events and local calls on a scripted transport are compared step by step with a reference RFC 6455 endpoint model (read results, refused writes, allowed State() set) and the outbound bytes, parsed independently, with the model's frame list; a blocking read may not go back to the transport while a reply it queued is unsent. Bounded search (<=25 steps per history).",
          "Trusts the endpoint model in harness/ws/c08_statemachine_test.go and the independent parser; behaviours the property leaves open (pong while closing, error on an invalid close payload) are accepted either way.",
          "stateful property-based testing against a protocol reference model (rapid)", "DESIGN.md §4 C08"),
  "C15": ("exploration",
@@ -67,7 +67,7 @@ T = {
          "Trusts the independent parser; the history test keeps one application write in flight, the burst test issues up to nine without waiting and releases transport completions one at a time; scripted transport is all-or-error like the real adapter; GOMAXPROCS=1 makes sync.Pool reuse deterministic.",
          "property-based testing with an independent parser as oracle (rapid)", "DESIGN.md §4 C16"),
  "C19": ("exploration",
-         "Round-trip / differential property testing (rapid) of CodecConn with the length-prefixed codec: every segmentation class of the read stream over a scripted transport, write path byte-exactness, hostile and over-limit headers, a real sonic.Dial<->sonic.Listen pair with small kernel buffers so both directions would-block mid-item, plus a native fuzz target in the thorough tier. Bounded search.",
+         "Round-trip / differential property testing (rapid) of CodecConn with the length-prefixed codec: every segmentation class of the read stream over a scripted transport, write path byte-exactness, hostile and over-limit headers, a real sonic.Dial<->sonic.Listen pair with small kernel buffers so both directions would-block mid-item, a raw peer that ends the stream right behind its last items (every item must be returned before EOF), plus a native fuzz target in the thorough tier. Bounded search.",
          "Trusts the 4-byte big-endian reference framing in the harness; declared lengths between 1 MiB and the 1 GiB limit are not generated (allocation cost).",
          "round-trip property-based testing + fuzzing (rapid, go fuzz)", "DESIGN.md §4 C19"),
  "C09": ("exploration",
